@@ -681,7 +681,7 @@ class Text(JupyterMixin):
         if _overflow != "ignore":
             length = cell_len(self.plain)
             if length > max_width:
-                if _overflow == "ellipsis":
+                if _overflow == "ellipsis" and max_width > 0:
                     self.plain = set_cell_size(self.plain, max_width - 1) + "…"
                 else:
                     self.plain = set_cell_size(self.plain, max_width)
